@@ -251,3 +251,50 @@ claim('C20',
       'Not decided: equivalence with local objects, atomicity of single operations (server threading), lifetime over '
       'real create/pass/drop histories. ' + _TB, 'DESIGN.md section 3, C20')
 
+
+
+# Clauses added after the blind seeding rounds (DESIGN.md sections 14, 15).  gen_manifest.py appends them to the
+# level text of the property.
+ADDED = {
+ 'C01': 'Also: the feeder thread leaves its loop only on state change / sentinel / broken pipe; no lookup in a '
+        'per-worker table can raise KeyError into the dispatcher that would take it for an unknown state; acceptance '
+        'and owner are recorded before any user callback and on every accepting path; an unfinished job whose owner '
+        'is gone is failed for every exit status; handle state is per instance; subclass constructors forward '
+        'shared parameters.',
+ 'C02': 'Also: the imap consumer is woken only after a release or at the end; the reorder buffer / item queue / '
+        'value list are per handle (no class-level mutable state); the copied traceback advances its depth.',
+ 'C03': 'Also: without handshake the owner is always recorded; the accept callback runs inside the handle lock '
+        '_set takes; every handler of the READY put attempts the fallback; MaybeEncodingError args are text.',
+ 'C04': 'Also: the unfinished job of a gone owner is failed whatever the exit status (restated from the owner-gone '
+        'outcome); the result handler keeps the pool\'s cache by reference; every supervision tick refills.',
+ 'C05': 'Also: the scanner and the result handler keep the pool\'s worker list / cache by reference; only the '
+        'finalizer stops the scanner; the slot of a killed worker returns with the reaped worker.',
+ 'C06': 'Also: the scan generator (owner of the signalled set) has one driver: the scanner thread, or the result loop '
+        'only in a pool without threads.',
+ 'C07': 'Also: close() flags only the supervisor; no fork once the pool left RUN; feeder and result handler keep the '
+        'live worker list / cache / counters; the accepting worker is recorded as owner on every accepting path.',
+ 'C08': 'Also: the feeder re-checks the state before every put; the pool\'s pipes are read and written inside `with '
+        '<lock>`; termination handlers are installed after the user initializer and on every path; the untimed join '
+        'blocks in waitpid, not on the sentinel.',
+ 'C09': 'Also: the result handler looks at the pool\'s own counter table (replacement workers register later).',
+ 'C10': 'Also: shrink lowers the bound before it takes the slot.',
+ 'C11': 'Also: the pool\'s own limiter reaches the result handler before the supervisor swaps it; one burst limiter '
+        'for all start-up ticks.',
+ 'C12': 'Also: the traceback text is made from the traceback that was handed in; no stand-in is shared through a '
+        'memo table keyed by less than its input or through class-level state.',
+ 'C14': 'Also: the heap lock is not re-entrant; heap state is per instance and completely re-created by the '
+        'constructor, which a process other than the owner runs before it allocates.',
+ 'C15': 'Also: a forked child starts from an empty heap; every SemLock installs the after-fork hook that resets the '
+        'inherited owner count; generated wrapper classes are cached under what they were generated from.',
+ 'C16': 'Also: test-and-start of the feeder thread is atomic; everything a queue does not pickle is re-created by the '
+        'after-fork hook; JoinableQueue forwards maxsize.',
+ 'C17': 'Also: every grabbed sleeper gets a wake token; every SemLock installs the after-fork hook; the lock classes '
+        'forward kind / value / bound to SemLock.',
+ 'C18': 'Also: the digest is keyed with the whole key, also when computed through a helper.',
+ 'C19': 'Also: spawn hands both child pipe ends to the child and keeps the read end of the inherited pipe as sentinel; '
+        'no exit status is made up when waitpid fails; the catch-all of _bootstrap catches base exceptions; an '
+        'untimed wait does not depend on the sentinel.',
+ 'C20': 'Also: the finalizer drops the cached connections and records SHUTDOWN on every path; every proxy installs '
+        'the after-fork hook; generated proxy types are cached under name and exposed methods; server tables are per '
+        'server.',
+}
